@@ -1,1 +1,456 @@
-fn main() {}
+//! C17 driver: DBC tables.  A byte-level builder (driven by the record size / field count / field
+//! offsets TLC emitted with the shape) produces the input file; the real crate parses it on four
+//! access paths, looks keys up, writes it back with DbcWriter and re-parses.  Observations only.
+use std::collections::HashMap;
+use std::io::Cursor;
+use std::sync::Arc;
+use wow_cdbc::{
+    DbcParser, DbcWriter, FieldType, LazyDbcParser, MmapDbcFile, Record, RecordSet, Schema, SchemaField,
+    StringRef, Value as DVal,
+};
+use wverif_common::*;
+
+#[derive(Clone, Debug)]
+enum V {
+    I32(i32),
+    U32(u32),
+    F32(f32),
+    Str(usize),
+    Bool(bool),
+    U8(u8),
+    I8(i8),
+    U16(u16),
+    I16(i16),
+}
+
+fn ftype(s: &str) -> FieldType {
+    match s {
+        "Int32" => FieldType::Int32,
+        "UInt32" => FieldType::UInt32,
+        "Float32" => FieldType::Float32,
+        "String" => FieldType::String,
+        "Bool" => FieldType::Bool,
+        "UInt8" => FieldType::UInt8,
+        "Int8" => FieldType::Int8,
+        "UInt16" => FieldType::UInt16,
+        "Int16" => FieldType::Int16,
+        _ => tool_error(&format!("unknown field type {s}")),
+    }
+}
+
+fn pool(cls: &str, rng: &mut Rng) -> Vec<String> {
+    let mut p: Vec<String> = vec![String::new()];
+    match cls {
+        "dup" => {
+            p.push("Stormwind".into());
+            p.push("Storm".into());
+        }
+        "empty" => {
+            p.push("x".into());
+        }
+        "nonascii" => {
+            for s in ["Ярость", "élan vital", "火球术", "naïve\u{301}", "Zul'Gurub", "ß"] {
+                p.push(s.into());
+            }
+        }
+        "long" => {
+            let mut l = String::new();
+            while l.len() < 1024 {
+                l.push((b'a' + rng.below(26) as u8) as char);
+            }
+            p.push(l.clone());
+            l.push('!'); // shares a 1 KB prefix
+            p.push(l);
+            p.push("short".into());
+        }
+        _ => {
+            for i in 0..8 {
+                p.push(format!("Name_{}_{:x}", i, rng.next_u32()));
+            }
+            p.push("Name_0".into()); // prefix of another entry
+        }
+    }
+    p
+}
+
+fn gen_val(ty: &str, is_key: bool, n: usize, npool: usize, cls: &str, rng: &mut Rng) -> V {
+    if is_key {
+        // small range so that duplicate keys occur; Int32 keys include negative values
+        let k = rng.below((n as u64 / 2).max(3)) as u32 * 3 + 1;
+        return if ty == "Int32" { V::I32(if rng.chance(1, 3) { -(k as i32) } else { k as i32 }) } else { V::U32(if rng.chance(1, 8) { 0xFFFF_FF00 | k } else { k }) };
+    }
+    match ty {
+        "Int32" => V::I32(rng.next_u32() as i32),
+        "UInt32" => V::U32(rng.next_u32()),
+        "Float32" => V::F32(if rng.chance(1, 10) { -0.0 } else { (rng.f32() - 0.5) * 1.0e6 }),
+        "String" => V::Str(if cls == "empty" && rng.chance(2, 3) { 0 } else { rng.below(npool as u64) as usize }),
+        "Bool" => V::Bool(rng.chance(1, 2)),
+        "UInt8" => V::U8(rng.byte()),
+        "Int8" => V::I8(rng.byte() as i8),
+        "UInt16" => V::U16(rng.next_u32() as u16),
+        "Int16" => V::I16(rng.next_u32() as i16),
+        _ => unreachable!(),
+    }
+}
+
+fn render_src(rec: &[Vec<V>], pool: &[String]) -> String {
+    let mut s = String::new();
+    for f in rec {
+        s.push('[');
+        for v in f {
+            match v {
+                V::I32(x) => s.push_str(&format!("i{x},")),
+                V::U32(x) => s.push_str(&format!("u{x},")),
+                V::F32(x) => s.push_str(&format!("f{:08x},", x.to_bits())),
+                V::Str(i) => s.push_str(&format!("s{:?},", pool[*i])),
+                V::Bool(x) => s.push_str(&format!("b{x},")),
+                V::U8(x) => s.push_str(&format!("u8:{x},")),
+                V::I8(x) => s.push_str(&format!("i8:{x},")),
+                V::U16(x) => s.push_str(&format!("u16:{x},")),
+                V::I16(x) => s.push_str(&format!("i16:{x},")),
+            }
+        }
+        s.push(']');
+    }
+    s
+}
+
+fn render_val(v: &DVal, res: &dyn Fn(StringRef) -> String, s: &mut String) {
+    match v {
+        DVal::Int32(x) => s.push_str(&format!("i{x},")),
+        DVal::UInt32(x) => s.push_str(&format!("u{x},")),
+        DVal::Float32(x) => s.push_str(&format!("f{:08x},", x.to_bits())),
+        DVal::StringRef(r) => s.push_str(&format!("s{},", res(*r))),
+        DVal::Bool(x) => s.push_str(&format!("b{x},")),
+        DVal::UInt8(x) => s.push_str(&format!("u8:{x},")),
+        DVal::Int8(x) => s.push_str(&format!("i8:{x},")),
+        DVal::UInt16(x) => s.push_str(&format!("u16:{x},")),
+        DVal::Int16(x) => s.push_str(&format!("i16:{x},")),
+        DVal::Array(vs) => {
+            for x in vs {
+                render_val(x, res, s)
+            }
+        }
+    }
+}
+fn render_rec(r: &Record, res: &dyn Fn(StringRef) -> String) -> String {
+    let mut s = String::new();
+    for v in r.values() {
+        s.push('[');
+        render_val(v, res, &mut s);
+        s.push(']');
+    }
+    s
+}
+fn render_set<'a>(recs: impl Iterator<Item = &'a Record>, res: &dyn Fn(StringRef) -> String) -> String {
+    let mut all = String::new();
+    for r in recs {
+        all.push_str(&render_rec(r, res));
+        all.push('\n');
+    }
+    tok(all.as_bytes())
+}
+fn res_str<'a>(f: impl Fn(StringRef) -> wow_cdbc::Result<&'a str> + 'a) -> impl Fn(StringRef) -> String + 'a {
+    move |r| match f(r) {
+        Ok(s) => format!("{s:?}"),
+        Err(e) => format!("<err:{}>", variant_name(&e)),
+    }
+}
+
+fn key_u32(v: Option<&DVal>) -> Option<u32> {
+    match v {
+        Some(DVal::UInt32(k)) => Some(*k),
+        Some(DVal::Int32(k)) => Some(*k as u32),
+        _ => None,
+    }
+}
+
+fn class<T, E: std::fmt::Debug>(o: Outcome<Result<T, E>>) -> (String, Option<T>) {
+    match o {
+        Outcome::Done(Ok(v)) => ("ok".into(), Some(v)),
+        Outcome::Done(Err(e)) => (format!("err:{}", variant_name(&e)), None),
+        Outcome::Panic(_) => ("panic".into(), None),
+        Outcome::Hang => ("hang".into(), None),
+    }
+}
+
+fn header_of(bytes: &[u8]) -> [u32; 4] {
+    let mut h = [0u32; 4];
+    if bytes.len() >= 20 {
+        for (i, x) in h.iter_mut().enumerate() {
+            let p = 4 + 4 * i;
+            *x = u32::from_le_bytes([bytes[p], bytes[p + 1], bytes[p + 2], bytes[p + 3]]);
+        }
+    }
+    h
+}
+fn clip(v: u32) -> u32 {
+    v.min(0x7fff_0000)
+}
+
+fn run_case(case: &str, c: &Value, rng: &mut Rng, scratch: &Scratch) -> Vec<Value> {
+    let mut evs = Vec::new();
+    let fields: Vec<(String, usize)> =
+        ga(c, "schema").iter().map(|f| (gs(f, "ty").to_string(), gi(f, "arr") as usize)).collect();
+    let key = gi(c, "key") as usize; // 1-based, 0 = none
+    let n = gi(c, "n") as usize;
+    let cls = gs(c, "strcls");
+    let rs = gi(c, "rs") as usize;
+    let fc = gi(c, "fc") as u32;
+    let offs: Vec<usize> = ga(c, "offs").iter().map(|x| x.as_u64().unwrap() as usize).collect();
+    let keyty = if key > 0 { fields[key - 1].0.clone() } else { "-".to_string() };
+    let str_in_arr = fields.iter().any(|(t, a)| t == "String" && *a > 0);
+    let arr_gt1 = fields.iter().any(|(_, a)| *a > 1);
+    evs.push(json!({"ev":"Reset","case":case,"schema":c["schema"],"key":key,"keyty":keyty,"n":n,"strcls":cls,
+        "nf":fields.len(),"strInArr":str_in_arr,"arrGt1":arr_gt1}));
+
+    // ---- the table and its byte image (harness-owned encoder, layout numbers from TLC) ----
+    let pool = pool(cls, rng);
+    let mut table: Vec<Vec<Vec<V>>> = Vec::with_capacity(n);
+    for _ in 0..n {
+        let mut rec = Vec::new();
+        for (fi, (ty, arr)) in fields.iter().enumerate() {
+            let elems = if *arr == 0 { 1 } else { *arr };
+            rec.push((0..elems).map(|_| gen_val(ty, fi + 1 == key, n, pool.len(), cls, rng)).collect::<Vec<V>>());
+        }
+        table.push(rec);
+    }
+    // string block of the input file: the empty string, then the pool in REVERSE order, used or not
+    let mut block = vec![0u8];
+    let mut off_of = vec![0u32; pool.len()];
+    for i in (1..pool.len()).rev() {
+        off_of[i] = block.len() as u32;
+        block.extend_from_slice(pool[i].as_bytes());
+        block.push(0);
+    }
+    let mut bytes0 = Vec::with_capacity(20 + n * rs + block.len());
+    bytes0.extend_from_slice(b"WDBC");
+    for v in [n as u32, fc, rs as u32, block.len() as u32] {
+        bytes0.extend_from_slice(&v.to_le_bytes());
+    }
+    for rec in &table {
+        let mut rb = vec![0u8; rs];
+        for (fi, f) in rec.iter().enumerate() {
+            let mut p = offs[fi];
+            for v in f {
+                let b: Vec<u8> = match v {
+                    V::I32(x) => x.to_le_bytes().to_vec(),
+                    V::U32(x) => x.to_le_bytes().to_vec(),
+                    V::F32(x) => x.to_le_bytes().to_vec(),
+                    V::Str(i) => off_of[*i].to_le_bytes().to_vec(),
+                    V::Bool(x) => (*x as u32).to_le_bytes().to_vec(),
+                    V::U8(x) => vec![*x],
+                    V::I8(x) => vec![*x as u8],
+                    V::U16(x) => x.to_le_bytes().to_vec(),
+                    V::I16(x) => x.to_le_bytes().to_vec(),
+                };
+                if p + b.len() > rs {
+                    tool_error("layout numbers from the generator do not fit the record");
+                }
+                rb[p..p + b.len()].copy_from_slice(&b);
+                p += b.len();
+            }
+        }
+        bytes0.extend_from_slice(&rb);
+    }
+    bytes0.extend_from_slice(&block);
+    let mut all = String::new();
+    for rec in &table {
+        all.push_str(&render_src(rec, &pool));
+        all.push('\n');
+    }
+    let src_tok = tok(all.as_bytes());
+    let used: std::collections::HashSet<usize> =
+        table.iter().flatten().flatten().filter_map(|v| if let V::Str(i) = v { Some(*i) } else { None }).collect();
+    evs.push(json!({"ev":"Build","case":case,"len":bytes0.len(),"hdr":[n, fc, rs, block.len()],"rtok":src_tok,"nstr":used.len(),"hasEmpty":used.contains(&0)}));
+
+    let mk_schema = || {
+        let mut s = Schema::new("T");
+        for (i, (ty, arr)) in fields.iter().enumerate() {
+            if *arr == 0 {
+                s.add_field(SchemaField::new(format!("f{i}"), ftype(ty)));
+            } else {
+                s.add_field(SchemaField::new_array(format!("f{i}"), ftype(ty), *arr));
+            }
+        }
+        if key > 0 {
+            s.set_key_field_index(key - 1);
+        }
+        s
+    };
+    let parse_eager = |bytes: &[u8]| -> (String, Option<(DbcParser, RecordSet)>) {
+        let b = bytes.to_vec();
+        class(guarded(move || {
+            let p = DbcParser::parse_bytes(&b)?.with_schema(mk_schema())?;
+            let r = p.parse_records()?;
+            Ok::<_, wow_cdbc::Error>((p, r))
+        }))
+    };
+
+    // ---- eager parse of the input file ----
+    let (res0, parsed0) = parse_eager(&bytes0);
+    let Some((parser0, set0)) = parsed0 else {
+        evs.push(json!({"ev":"Parse0","case":case,"res":res0,"rtok":"-","hdr":[0,0,0,0]}));
+        return evs;
+    };
+    let h = *parser0.header();
+    let eager_tok = render_set(set0.records().iter(), &res_str(|r| set0.get_string(r)));
+    evs.push(json!({"ev":"Parse0","case":case,"res":res0,"rtok":eager_tok,
+        "hdr":[clip(h.record_count), clip(h.field_count), clip(h.record_size), clip(h.string_block_size)]}));
+
+    // ---- the other access paths on the same bytes ----
+    let schema = mk_schema();
+    let sb = Arc::new(set0.string_block().clone());
+    let cached = {
+        let mut s2 = set0.clone();
+        match guarded(|| {
+            s2.enable_string_caching();
+            render_set(s2.records().iter(), &res_str(|r| s2.get_string(r)))
+        }) {
+            Outcome::Done(t) => t,
+            _ => "panic".into(),
+        }
+    };
+    let (lazy_idx, lazy_iter) = {
+        let lp = LazyDbcParser::new(&bytes0, &h, Some(&schema), Arc::clone(&sb));
+        let a = match guarded(|| {
+            let mut recs = Vec::new();
+            for i in 0..h.record_count {
+                recs.push(lp.get_record(i)?);
+            }
+            Ok::<_, wow_cdbc::Error>(render_set(recs.iter(), &res_str(|r| lp.string_block().get_string(r))))
+        }) {
+            Outcome::Done(Ok(t)) => t,
+            Outcome::Done(Err(e)) => format!("err:{}", variant_name(&e)),
+            _ => "panic".into(),
+        };
+        let b = match guarded(|| {
+            let recs: Result<Vec<Record>, _> = lp.record_iterator().collect();
+            recs.map(|recs| render_set(recs.iter(), &res_str(|r| lp.string_block().get_string(r))))
+        }) {
+            Outcome::Done(Ok(t)) => t,
+            Outcome::Done(Err(e)) => format!("err:{}", variant_name(&e)),
+            _ => "panic".into(),
+        };
+        (a, b)
+    };
+    let mmap_tok = {
+        let path = scratch.file(&format!("{}.dbc", case.replace(':', "_")));
+        std::fs::write(&path, &bytes0).unwrap_or_else(|e| tool_error(&format!("write scratch: {e}")));
+        let r = match guarded(|| {
+            let mm = MmapDbcFile::open(&path)?;
+            let set = mm.parser_with_schema(mk_schema())?.parse_records()?;
+            let sbm = mm.string_block()?;
+            let t = render_set(set.records().iter(), &res_str(|r| sbm.get_string(r)));
+            Ok::<_, wow_cdbc::Error>(t)
+        }) {
+            Outcome::Done(Ok(t)) => t,
+            Outcome::Done(Err(e)) => format!("err:{}", variant_name(&e)),
+            _ => "panic".into(),
+        };
+        let _ = std::fs::remove_file(&path);
+        r
+    };
+    let par_tok = match guarded(|| {
+        let set = wow_cdbc::parse_records_parallel(&bytes0, &h, Some(&schema), Arc::clone(&sb))?;
+        let t = render_set(set.records().iter(), &res_str(|r| set.get_string(r)));
+        Ok::<_, wow_cdbc::Error>(t)
+    }) {
+        Outcome::Done(Ok(t)) => t,
+        Outcome::Done(Err(e)) => format!("err:{}", variant_name(&e)),
+        _ => "panic".into(),
+    };
+    evs.push(json!({"ev":"Paths","case":case,"eager":eager_tok,"cached":cached,"lazyIdx":lazy_idx,"lazyIter":lazy_iter,"mmap":mmap_tok,"par":par_tok}));
+
+    // ---- key lookups ----
+    if key > 0 {
+        let mut present: Vec<u32> = table
+            .iter()
+            .map(|r| match &r[key - 1][0] {
+                V::U32(k) => *k,
+                V::I32(k) => *k as u32,
+                _ => 0,
+            })
+            .collect();
+        present.sort();
+        present.dedup();
+        let have: std::collections::HashSet<u32> = present.iter().copied().collect();
+        let mut probe: Vec<(u32, bool)> = Vec::new();
+        let step = (present.len() / 40).max(1);
+        for k in present.iter().step_by(step).take(48) {
+            probe.push((*k, true));
+        }
+        for k in [0u32, 2, 0x7fff_ffff, 0xdead_beef, 5] {
+            if !have.contains(&k) {
+                probe.push((k, false));
+            }
+        }
+        let mut sorted = set0.clone();
+        let sres = match guarded(|| sorted.create_sorted_key_map()) {
+            Outcome::Done(Ok(())) => "ok".to_string(),
+            Outcome::Done(Err(e)) => format!("err:{}", variant_name(&e)),
+            _ => "panic".into(),
+        };
+        let hx = |o: Option<u32>| o.map(hex32).unwrap_or_else(|| "-".into());
+        let ents: Vec<Value> = probe
+            .iter()
+            .map(|(k, p)| {
+                let hr = set0.get_record_by_key(*k).map(|r| key_u32(r.get_value(key - 1)).unwrap_or(!*k));
+                let br = sorted.get_record_by_key_binary_search(*k).map(|r| key_u32(r.get_value(key - 1)).unwrap_or(!*k));
+                json!([hex32(*k), *p, hx(hr), hx(br)])
+            })
+            .collect();
+        evs.push(json!({"ev":"Keys","case":case,"sorted":sres,"ents":ents}));
+    }
+
+    // ---- write back with the crate's writer, look at the bytes, re-parse ----
+    let (wres, wbytes) = class(guarded(|| {
+        let mut cur = Cursor::new(Vec::new());
+        DbcWriter::new(&mut cur).with_schema(mk_schema()).write_records(&set0).map(|_| cur.into_inner())
+    }));
+    let wbytes = wbytes.unwrap_or_default();
+    let wh = header_of(&wbytes);
+    let sid_of: HashMap<&str, usize> = pool.iter().enumerate().map(|(i, s)| (s.as_str(), i)).collect();
+    let mut blk: Vec<Value> = Vec::new();
+    let bstart = 20usize.saturating_add((wh[0] as usize).saturating_mul(wh[2] as usize));
+    let bend = bstart.saturating_add(wh[3] as usize);
+    let block_ok = wbytes.len() >= 20 && bend <= wbytes.len();
+    if block_ok {
+        let b = &wbytes[bstart..bend];
+        let mut p = 0usize;
+        while p < b.len() {
+            let e = b[p..].iter().position(|x| *x == 0).map(|q| p + q).unwrap_or(b.len());
+            let sid = std::str::from_utf8(&b[p..e]).ok().and_then(|s| sid_of.get(s).copied()).map(|x| x as i64).unwrap_or(-1);
+            blk.push(json!([p, sid]));
+            p = e + 1;
+        }
+    }
+    evs.push(json!({"ev":"Write","case":case,"res":wres,"len":wbytes.len(),"tok":tok(&wbytes),
+        "hdr":[clip(wh[0]), clip(wh[1]), clip(wh[2]), clip(wh[3])],"blockInFile":block_ok,"block":blk}));
+    if wres == "ok" {
+        let (rres, rp) = parse_eager(&wbytes);
+        let rtok = rp.map(|(_, set)| render_set(set.records().iter(), &res_str(|r| set.get_string(r)))).unwrap_or_else(|| "-".into());
+        evs.push(json!({"ev":"Reparse","case":case,"res":rres,"rtok":rtok}));
+    }
+    evs
+}
+
+fn main() {
+    let a = args();
+    install_quiet_panic_hook();
+    let cases = read_cases(&a.cases);
+    let trace = Trace::create(&a.trace);
+    let seed = seed();
+    let scratch = Scratch::new("c17");
+    let results: Vec<std::sync::Mutex<Vec<Value>>> = (0..cases.len()).map(|_| std::sync::Mutex::new(Vec::new())).collect();
+    par_for(cases.len(), ncpu().min(8), |ci| {
+        let c = &cases[ci];
+        let case = format!("{ci}:dbc");
+        let mut rng = Rng::derive(seed, &case);
+        *results[ci].lock().unwrap() = run_case(&case, c, &mut rng, &scratch);
+    });
+    for r in results {
+        trace.block(r.into_inner().unwrap());
+    }
+    trace.flush();
+}
